@@ -2748,6 +2748,12 @@ fn parse_tap_dance(
             Ok(actions)
         })
         .ok_or_else(|| anyhow_expr!(&ac_params[1], "{ERR_MSG}: expected a list"))??;
+    if actions.is_empty() {
+        bail_expr!(
+            &ac_params[1],
+            "{ERR_MSG}: the list must have at least one action"
+        );
+    }
 
     Ok(s.a.sref(Action::TapDance(s.a.sref(TapDance {
         timeout,
